@@ -37,7 +37,7 @@ def prop_modules(prop):
 
 
 # hand-model properties integrated so far (checks/<cxx>.py, lean/Drv<Cxx>.lean)
-H_PROPS = ['C05', 'C06', 'C07', 'C11', 'C14', 'C18']
+H_PROPS = ['C03', 'C05', 'C06', 'C07', 'C11', 'C14', 'C18']
 
 
 def parse_corr(out):
